@@ -25,6 +25,8 @@ import (
 
 var errRPC = errors.New("harness: rpc error")
 
+var errWriteTimeout = fmt.Errorf("harness: write: %w", context.DeadlineExceeded)
+
 type tx struct {
 	at    time.Duration
 	id    int64
@@ -44,8 +46,14 @@ func TestC25(t *testing.T) {
 		retry := time.Duration(rapid.SampledFrom([]int{1, 3, 10}).Draw(t, "retrySec")) * time.Second
 		maxRetries := rapid.IntRange(1, 6).Draw(t, "maxRetries")
 		failAt := -1
+		errInjected := errSendFailed
 		if rapid.IntRange(0, 3).Draw(t, "injectSendFailure") == 0 {
 			failAt = rapid.IntRange(0, maxRetries).Draw(t, "failAt")
+			if rapid.Bool().Draw(t, "failureIsWriteTimeout") {
+				// the transport's own write timeout: a deadline error although the
+				// caller's context is alive
+				errInjected = errWriteTimeout
+			}
 		}
 		// script: up to 3 events at instants strictly between timer instants, or 1ns after one
 		var script []scriptEv
@@ -136,7 +144,7 @@ func TestC25(t *testing.T) {
 				got = append(got, tx{at: time.Since(t0), id: msgID, seqNo: seqNo, body: string(b.Buf)})
 				mu.Unlock()
 				if k == failAt {
-					return errSendFailed
+					return errInjected
 				}
 				return nil
 			}
@@ -232,8 +240,8 @@ func TestC25(t *testing.T) {
 					t.Fatalf("want the rpc error, got %v", r.err)
 				}
 			case "sendfail":
-				if !errors.Is(r.err, errSendFailed) {
-					t.Fatalf("want the injected send failure, got %v", r.err)
+				if !errors.Is(r.err, errInjected) {
+					t.Fatalf("want the injected send failure (%v), got %v", errInjected, r.err)
 				}
 			case "limit":
 				var lim *rpc.RetryLimitReachedErr
@@ -245,7 +253,7 @@ func TestC25(t *testing.T) {
 				}
 			}
 		})
-		key := fmt.Sprintf("retry=%v max=%d failAt=%d script=%v", retry, maxRetries, failAt, script)
+		key := fmt.Sprintf("retry=%v max=%d failAt=%d(%v) script=%v", retry, maxRetries, failAt, errInjected == errWriteTimeout, script)
 		st.Case(key, len(wantTx) > 1, key+fmt.Sprintf(" tx=%v outcome=%s", wantTx, wantOutcome), "outcome="+wantOutcome, fmt.Sprintf("tx=%d", len(wantTx)))
 	})
 }
